@@ -247,7 +247,7 @@ func (g *gen) filePart(pInvalid int) *Part {
 	p := g.part(40, pInvalid, false)
 	p.P, p.Set, p.NestX, p.EmbA, p.EmbS, p.Iface, p.BadIface, p.Share = nil, nil, nil, nil, nil, nil, false, false
 	p.SM, p.MM, p.MA, p.Pairs = nil, nil, nil, nil
-	p.KP = nil
+	p.KP, p.Sh = nil, nil
 	p.Arr, p.When, p.Peers, p.PM = nil, nil, nil, nil
 	p.PWhen, p.TU, p.Held = nil, nil, nil
 	p.Chain = 0
